@@ -28,8 +28,12 @@ pub enum FileState {
     UnreadablePermission,
     /// the reader fails with std::io::Error of kind NotFound
     UnreadableNotFound,
+    /// the first request fails with std::io::Error of kind Interrupted, a second request for the same path would succeed
+    /// (no request is ever repeated: a failure means "try the next candidate")
+    InterruptedOnce,
 }
-const STATES: [FileState; 11] = [
+const STATES: [FileState; 12] = [
+    FileState::InterruptedOnce,
     FileState::UnreadablePermission,
     FileState::UnreadableNotFound,
     FileState::Unreadable,
@@ -63,7 +67,7 @@ fn file_b() -> Vec<u8> {
 }
 fn bytes_of(s: FileState) -> Option<Vec<u8>> {
     match s {
-        FileState::Unreadable | FileState::UnreadablePermission | FileState::UnreadableNotFound => None,
+        FileState::Unreadable | FileState::UnreadablePermission | FileState::UnreadableNotFound | FileState::InterruptedOnce => None,
         FileState::ValidA => Some(file_a()),
         FileState::ValidB => Some(file_b()),
         FileState::InvalidNoMagic => Some(b"# zone.tab style text, not a TZif file\n".to_vec()),
@@ -76,12 +80,17 @@ fn bytes_of(s: FileState) -> Option<Vec<u8>> {
 thread_local! {
     static VFS: RefCell<BTreeMap<String, FileState>> = const { RefCell::new(BTreeMap::new()) };
     static LOG: RefCell<Vec<String>> = const { RefCell::new(Vec::new()) };
+    static SEEN: RefCell<std::collections::BTreeSet<String>> = const { RefCell::new(std::collections::BTreeSet::new()) };
 }
 
 fn vfs_reader(path: &str) -> Result<Vec<u8>, Box<dyn std::error::Error + Send + Sync + 'static>> {
     LOG.with(|l| l.borrow_mut().push(path.to_string()));
     // a path the model does not name is readable and holds zone B: opening it would also change the outcome
     let st = VFS.with(|v| v.borrow().get(path).copied()).unwrap_or(FileState::ValidB);
+    if st == FileState::InterruptedOnce {
+        let again = SEEN.with(|s| !s.borrow_mut().insert(path.to_string()));
+        return if again { Ok(file_a()) } else { Err(Box::new(std::io::Error::from(std::io::ErrorKind::Interrupted))) };
+    }
     match bytes_of(st) {
         Some(b) => Ok(b),
         None => match st {
@@ -112,7 +121,7 @@ fn zone_of_file(st: FileState) -> Outcome {
     match st {
         FileState::ValidA => Outcome::Zone(Box::new(TimeZone::from_tz_data(&file_a()).unwrap())),
         FileState::ValidB => Outcome::Zone(Box::new(TimeZone::from_tz_data(&file_b()).unwrap())),
-        FileState::Unreadable | FileState::UnreadablePermission | FileState::UnreadableNotFound => Outcome::Io,
+        FileState::Unreadable | FileState::UnreadablePermission | FileState::UnreadableNotFound | FileState::InterruptedOnce => Outcome::Io,
         // the outcome class follows the component that refuses the file's content (see `classify`)
         FileState::SemanticFooter | FileState::SemanticType => Outcome::StringError,
         _ => Outcome::DecodeError,
@@ -147,12 +156,22 @@ fn posix_zone(s: &[u8]) -> Outcome {
 }
 
 fn unreadable(st: FileState) -> bool {
-    matches!(st, FileState::Unreadable | FileState::UnreadablePermission | FileState::UnreadableNotFound)
+    matches!(st, FileState::Unreadable | FileState::UnreadablePermission | FileState::UnreadableNotFound | FileState::InterruptedOnce)
 }
 
 /// The protocol model: ordered list of paths opened + outcome
 pub fn model(value: &str, dirs: &[&str], vfs: &BTreeMap<String, FileState>) -> (Vec<String>, Outcome) {
-    let state = |p: &str| vfs.get(p).copied().unwrap_or(FileState::ValidB);
+    // a path in state InterruptedOnce fails on its first request and holds zone A on any later one (a repeated directory
+    // legitimately requests the same path twice)
+    let seen: RefCell<std::collections::BTreeSet<String>> = RefCell::new(Default::default());
+    let state = |p: &str| {
+        let st = vfs.get(p).copied().unwrap_or(FileState::ValidB);
+        if st == FileState::InterruptedOnce && !seen.borrow_mut().insert(p.to_string()) {
+            FileState::ValidA
+        } else {
+            st
+        }
+    };
     if value.is_empty() {
         return (vec![], Outcome::Empty);
     }
@@ -252,6 +271,7 @@ fn check_config(value: &str, dirs: &[&str], vfs: &BTreeMap<String, FileState>, l
     let (exp_paths, exp_out) = model(value, dirs, vfs);
     VFS.with(|v| *v.borrow_mut() = vfs.clone());
     LOG.with(|l| l.borrow_mut().clear());
+    SEEN.with(|s| s.borrow_mut().clear());
     let settings = TimeZoneSettings::new(dirs, vfs_reader);
     let got = guard(|| if local { settings.parse_local() } else { settings.parse_posix_tz(value) });
     let log: Vec<String> = LOG.with(|l| l.borrow().clone());
@@ -381,7 +401,7 @@ pub fn run(args: &Args) -> i32 {
     rec.add(total.evals, total.nontrivial);
     rec.add_model(total.evals, total.opens + total.evals, total.evals);
     rec.digest("resolve", total.digest);
-    rec.set_rule("complete product: TZ values x ordered directory lists x every assignment of {unreadable (opaque error, io::Error PermissionDenied, io::Error NotFound), valid A, valid B, invalid without magic, invalid with magic, empty, well-formed container with unsorted transitions / bad footer / bad designation} to the candidate paths the model names plus one path that must never be opened; the logged sequence of read requests and the outcome class (incl. the decoded zone) must equal the protocol model's. states = configurations, transitions = file-open requests. non-trivial = configurations with >= 2 opens or a non-zone outcome");
+    rec.set_rule("complete product: TZ values x ordered directory lists x every assignment of {unreadable (opaque error, io::Error PermissionDenied, io::Error NotFound, io::Error Interrupted once then readable), valid A, valid B, invalid without magic, invalid with magic, empty, well-formed container with unsorted transitions / bad footer / bad designation} to the candidate paths the model names plus one path that must never be opened; the logged sequence of read requests and the outcome class (incl. the decoded zone) must equal the protocol model's. states = configurations, transitions = file-open requests. non-trivial = configurations with >= 2 opens or a non-zone outcome");
     rec.set_exhaustive(true);
     let v = vals[(args.seed as usize * 5 + 6) % vals.len()];
     let d = &dls[(args.seed as usize + 3) % dls.len()];
